@@ -8,7 +8,7 @@ cd $WT || exit 9
 echo "== tests with patch"; (cargo test --workspace --no-fail-fast --offline 2>&1 | grep -E "^test result|FAILED|failed" | awk '{p+=$4; f+=$6} END {print "passed="p" failed="f}')
 echo "== demo with patch"; bash $DEMO/demo.sh $WT 2>&1 | tail -1
 git -C $WT diff > /tmp/seed_$ID.diff
-git -C $WT stash -q; echo "== demo without patch"; bash $DEMO/demo.sh $WT 2>&1 | tail -1; git -C $WT stash pop -q
+git -C $WT apply -R /tmp/seed_$ID.diff; echo "== demo without patch"; bash $DEMO/demo.sh $WT 2>&1 | tail -1; git -C $WT apply /tmp/seed_$ID.diff
 mkdir -p /verif/seeded/$ID; cp /tmp/seed_$ID.diff /verif/seeded/$ID/patch.diff
 for f in $DEMO/*; do case "$f" in *.log|*/target) ;; *) cp -r "$f" /verif/seeded/$ID/ 2>/dev/null;; esac; done
 cp /tmp/seed_$ID.diff /verif/seeded/$ID/patch.diff
